@@ -282,6 +282,21 @@ CLAIMED = {
         note="the reader is html5lib's own parser.",
         technique="Coq proof (composition of filter theorems, lexical round trips) + differential correspondence + "
                   "grammar-based round-trip run"),
+    "C10": dict(
+        category="proof",
+        text="Model Ser . San (token loop after the sanitizer with the default lists) tied to "
+             "HTMLSerializer(sanitize=True).render by exact agreement. Theorems: no allowed element is a raw-text "
+             "element, hence for EVERY stream and option set the loop never enters raw-text mode after the "
+             "sanitizer: every Characters token, including the text disallowed tags are turned into, is escaped; "
+             "escaped text is read back as text by the WHATWG tokenizer whatever follows (C08), so a removed tag "
+             "cannot reappear lexically; comments never reach the serializer; the sanitizer sits between sorting "
+             "and omission. PARTIAL: structural re-interpretation on re-parse (namespace change of ALLOWED tags) "
+             "needs tree construction; decided by re-parsing as document and in 11 fragment contexts, scripting "
+             "on/off, with allow-list and provenance predicates; one listed finding.",
+        design_ref="DESIGN.md 3 C10",
+        note="sanitize_css is not modelled (streams with a style attribute are outside the model's domain).",
+        technique="Coq proof (finite table fact lifted to all streams by induction, composition with C08/C09) + "
+                  "differential correspondence + mutation-XSS re-parse run"),
 }
 
 PENDING_REASON = "not yet built in this round (planned: Coq model + theorems per DESIGN.md section 3); no check is registered, so nothing is claimed"
